@@ -103,3 +103,37 @@ Fixpoint draws_eq (a b : list (ts * N)) : Prop :=
   | (t1, p1) :: r1, (t2, p2) :: r2 => ts_eq t1 t2 /\ p1 = p2 /\ draws_eq r1 r2
   | _, _ => False
   end.
+
+(* ------------------------------------------------------------------ extension round 4: the search domain of node_by_id *)
+(* A node of the usvg tree also owns sub-trees (clip-path / mask roots of a group, pattern roots of a path's paints, feImage
+   roots): `subs`.  tree/mod.rs node_by_id iterates `parent.children` and descends into `Node::Group` children only (fact
+   BF_NodeById): nodes of sub-trees are not renderable nodes and are never returned, whatever ids they carry. *)
+Inductive fnode :=
+  | FGroup (id : string) (t abs : ts) (abs_layer : box) (subs : list fnode) (ch : list fnode)
+  | FLeaf (id : string) (abs : ts) (abs_sbbox : box) (subs : list fnode).
+Definition fid (n : fnode) : string := match n with FGroup i _ _ _ _ _ => i | FLeaf i _ _ _ => i end.
+Fixpoint f_nbi (id : string) (n : fnode) {struct n} : option fnode :=
+  match n with
+  | FGroup _ _ _ _ _ ch =>
+      (fix go (l : list fnode) : option fnode :=
+         match l with
+         | [] => None
+         | c :: r => if String.eqb (fid c) id then Some c else
+                     match f_nbi id c with Some x => Some x | None => go r end
+         end) ch
+  | FLeaf _ _ _ _ => None
+  end.
+Definition f_node_by_id (root : fnode) (id : string) : option fnode :=
+  if String.eqb id "" then None else f_nbi id root.
+(* the renderable tree: sub-trees dropped *)
+Fixpoint f_erase (n : fnode) : enode :=
+  match n with
+  | FGroup i t a l _ ch => EGroup i t a l (map f_erase ch)
+  | FLeaf i a b _ => ELeaf i a b
+  end.
+(* every node of the forest, sub-trees included, in pre-order *)
+Fixpoint f_all (n : fnode) : list fnode :=
+  n :: match n with
+       | FGroup _ _ _ _ subs ch => flat_map f_all subs ++ flat_map f_all ch
+       | FLeaf _ _ _ subs => flat_map f_all subs
+       end.
